@@ -1288,3 +1288,19 @@ pub fn finish_nosize_empty() {
 pub fn finish_sized_empty() {
     finish_rules::<0, 0, 0, 0, 0, 1, 0, true>()
 }
+
+// ----- helpers for the LZMA2 harnesses (fields of DecoderState are private to this module) -----
+pub fn set_script(d: &mut DecoderState, sc: [usize; 4]) {
+    d.rep = sc;
+    d.state = 0;
+}
+/// reset_state observer: counts calls in is_rep_g2[11] (untouched by abstract symbols)
+pub fn note_reset(d: &mut DecoderState) {
+    d.is_rep_g2[11] = d.is_rep_g2[11].wrapping_add(1);
+}
+pub fn reset_count(d: &DecoderState) -> usize {
+    (d.is_rep_g2[11].wrapping_sub(0x400)) as usize
+}
+pub fn unpacked_size_of(d: &DecoderState) -> Option<u64> {
+    d.unpacked_size
+}
